@@ -43,7 +43,7 @@ impl Known {
 pub fn load_known(path: &str) -> Vec<Known> {
     match std::fs::read_to_string(path) {
         Ok(s) => serde_json::from_str(&s).unwrap_or_else(|e| {
-            ecrate::outln!("MACHINERY-ERROR cannot parse {}: {}", path, e);
+            eprintln!("MACHINERY-ERROR cannot parse {}: {}", path, e);
             std::process::exit(2);
         }),
         Err(_) => Vec::new(),
@@ -241,7 +241,7 @@ pub fn run_prop(instances: &[Inst], o: &PropOpts) -> PropOutcome {
                     return (idx, Merged::default());
                 }
                 let m = shard::run_sharded(&name, &cfg, &so);
-                ecrate::outln!(
+                eprintln!(
                     "  {:34} {:5} (p{},s{},f{}) execs={:9} nodes={:9} steps={:11} outcomes={:4} complete={} {:.1}s{}",
                     name,
                     build,
